@@ -79,14 +79,16 @@ CONSTANTS SEED,      \* selects the slice of every family whose modulus is > 1
           M_NARY,    \* variadic calls with 3, 4, 5 operands
           M_EXPT,    \* expt, arithmetic-shift
           M_STR,     \* number->string with radix, string->number
-          M_MIX      \* mixed exact / inexact
+          M_MIX,     \* mixed exact / inexact
+          FAMILY       \* "all", or the name of the single family to generate
 
 VARIABLES fam,   \* family of the case
-          op,    \* operator name (Scheme identifier)
-          ix,    \* indexes of the operands chosen so far (into the family's operand table)
+          oi,    \* index of the operator in Ops(fam)
+          op,    \* operator name (Scheme identifier) = Ops(fam)[oi]
+          ix,    \* indexes of the operands chosen so far (into the family's operand tables)
           done   \* TRUE in the terminal state
 
-vars == <<fam, op, ix, done>>
+vars == <<fam, oi, op, ix, done>>
 
 Max(a, b) == IF a >= b THEN a ELSE b
 Min(a, b) == IF a <= b THEN a ELSE b
@@ -213,9 +215,14 @@ NSqrtIter(n, x) == LET y == NHalf(NAdd(x, NDiv(n, x)))
 NSqrt(n) == IF n = << >> THEN << >> ELSE NSqrtIter(n, NShift(One, (Len(n) + 1) \div 2))
 
 \* number of trailing binary zeros / odd part:  a = odd * 2^j  (a # 0)
+\* (strip factors 2^13 = 8192 while they divide, then single factors: at most 12 of them)
 RECURSIVE NOddSplitAt(_, _)
 NOddSplitAt(a, j) == IF NIsOdd(a) THEN <<a, j>> ELSE NOddSplitAt(NHalf(a), j + 1)
-NOddSplit(a) == NOddSplitAt(a, 0)
+RECURSIVE NOddSplitBig(_, _)
+NOddSplitBig(a, j) == IF NIsOdd(a) THEN <<a, j>>
+                      ELSE LET qr == NDivSmall(a, 8192)
+                           IN IF qr[2] = 0 THEN NOddSplitBig(qr[1], j + 13) ELSE NOddSplitAt(a, j)
+NOddSplit(a) == NOddSplitBig(a, 0)
 
 \* k if a = 2^k, else -1
 NLog2Exact(a) == LET s == NOddSplit(a) IN IF s[1] = One THEN s[2] ELSE -1
@@ -363,14 +370,29 @@ FOfQ(q) == LET k == NLog2Exact(q.den)
 FNegate(a) == IF a.c \in {"nan", "undet"} THEN a ELSE [a EXCEPT !.neg = ~a.neg]
 FAbs(a)    == IF a.c \in {"nan", "undet"} THEN a ELSE [a EXCEPT !.neg = FALSE]
 
+\* odd significand m and exponent e -> the flonum, if it is one
+FChk(neg, m, e) == IF NLt(m, P53) /\ e >= -1074 /\ e <= 971 THEN FFin(neg, m, e) ELSE Undet
+\* any nonzero significand: strip the factors of two first
+FNorm(neg, m, e) == LET s == NOddSplit(m) IN FChk(neg, s[1], e + s[2])
+
+\* IEEE operations where the exact result is a double (else Undet).  Finite nonzero operands are
+\* dyadic rationals m1*2^e1, m2*2^e2 with odd m1, m2:
+\*   sum:      2^min(e1,e2) * (m1*2^(e1-min) +- m2*2^(e2-min));  when the exponents differ by more
+\*             than 64 the aligned sum is odd and longer than 53 bits: never a double
+\*   product:  (m1*m2) * 2^(e1+e2), m1*m2 is odd
+\*   quotient: a dyadic rational only when m2 divides m1; then (m1/m2) * 2^(e1-e2), m1/m2 odd
 FAdd(a, b) ==
   IF a.c = "undet" \/ b.c = "undet" THEN Undet
   ELSE IF a.c = "nan" \/ b.c = "nan" THEN FNaN
   ELSE IF a.c = "inf" THEN (IF b.c = "inf" /\ a.neg # b.neg THEN FNaN ELSE a)
   ELSE IF b.c = "inf" THEN b
   ELSE IF a.m = Zero /\ b.m = Zero THEN FZero(a.neg /\ b.neg)      \* -0 + -0 = -0, else +0
-  ELSE LET s == QAdd(FVal(a), FVal(b))
-       IN IF QIsZero(s) THEN FZero(FALSE) ELSE FOfQ(s)             \* x + (-x) = +0 (round to nearest)
+  ELSE IF a.m = Zero THEN b
+  ELSE IF b.m = Zero THEN a
+  ELSE IF a.e - b.e > 64 \/ b.e - a.e > 64 THEN Undet
+  ELSE LET e == Min(a.e, b.e)
+           s == SAdd(a.neg, NMul(a.m, NPow(Two, a.e - e)), b.neg, NMul(b.m, NPow(Two, b.e - e)))
+       IN IF s[2] = Zero THEN FZero(FALSE) ELSE FNorm(s[1], s[2], e)    \* x + (-x) = +0 (round to nearest)
 FSub(a, b) == FAdd(a, FNegate(b))
 FMul(a, b) ==
   IF a.c = "undet" \/ b.c = "undet" THEN Undet
@@ -379,7 +401,7 @@ FMul(a, b) ==
        THEN (IF (a.c = "fin" /\ a.m = Zero) \/ (b.c = "fin" /\ b.m = Zero) THEN FNaN
              ELSE FInf(a.neg # b.neg))
   ELSE IF a.m = Zero \/ b.m = Zero THEN FZero(a.neg # b.neg)
-  ELSE FOfQ(QMul(FVal(a), FVal(b)))
+  ELSE FChk(a.neg # b.neg, NMul(a.m, b.m), a.e + b.e)
 FDiv(a, b) ==
   IF a.c = "undet" \/ b.c = "undet" THEN Undet
   ELSE IF a.c = "nan" \/ b.c = "nan" THEN FNaN
@@ -387,7 +409,8 @@ FDiv(a, b) ==
   ELSE IF b.c = "inf" THEN FZero(a.neg # b.neg)
   ELSE IF b.m = Zero THEN (IF a.m = Zero THEN FNaN ELSE FInf(a.neg # b.neg))
   ELSE IF a.m = Zero THEN FZero(a.neg # b.neg)
-  ELSE FOfQ(QDiv(FVal(a), FVal(b)))
+  ELSE LET dm == NDivMod(a.m, b.m)
+       IN IF dm[2] = Zero THEN FChk(a.neg # b.neg, dm[1], a.e - b.e) ELSE Undet
 
 \* rounding a flonum to an integral flonum: always exact; a zero result keeps the argument's sign
 FRoundWith(a, Rnd(_)) ==
@@ -408,7 +431,8 @@ ZeroDigits(k) == [i \in 1..k |-> 0]
 \* positional notation of D / 10^k with at least one fractional digit
 Positional(D, k) ==
   LET L == Len(D) IN
-  IF L > k
+  IF L = 0 THEN "0.0"
+  ELSE IF L > k
   THEN LET fr == DropTrailingZeros(SubSeq(D, L - k + 1, L))
        IN DigitsStr(SubSeq(D, 1, L - k)) \o "." \o (IF fr = << >> THEN "0" ELSE DigitsStr(fr))
   ELSE "0." \o DigitsStr(ZeroDigits(k - L)) \o DigitsStr(DropTrailingZeros(D))
@@ -601,5 +625,452 @@ RepClass(q) == IF q.den = One THEN (IF FitsSigned(q.neg, q.num, P63) THEN "fix" 
 VRep(v) == IF IsEx(v) THEN RepClass(v.q) ELSE "flo"
 RRep(r) == CASE r.t = "ex" -> RepClass(r.q) [] r.t = "fl" -> "flo" [] r.t = "list" -> RepClass(r.x)
              [] OTHER -> r.t
+
+
+-----------------------------------------------------------------------------
+(* 5. The operand tables: values at and around every representation boundary *)
+
+P32 == BE(<<42, 9496, 7296>>)                    \* 4 294 967 296
+P62 == BE(<<461, 1686, 184, 2738, 7904>>)        \* 4 611 686 018 427 387 904
+P64 == BE(<<1844, 6744, 737, 955, 1616>>)        \* 18 446 744 073 709 551 616
+R63 == BE(<<30, 3700, 499>>)                     \* floor(sqrt(2^63)) = 3 037 000 499
+T20 == NShift(One, 5)                            \* 10^20
+T40 == NShift(One, 10)                           \* 10^40
+
+\* the hand-written limb literals agree with the algebra
+ASSUME /\ NPow(Two, 31) = P31 /\ NPow(Two, 32) = P32 /\ NPow(Two, 53) = P53
+       /\ NPow(Two, 62) = P62 /\ NPow(Two, 63) = P63 /\ NPow(Two, 64) = P64
+       /\ NPow(<<10>>, 20) = T20 /\ NPow(<<10>>, 40) = T40
+       /\ NSqrt(P63) = R63 /\ NMul(P32, P32) = P64 /\ NAdd(P63, P63) = P64
+       /\ NStr(P64) = "18446744073709551616" /\ NStr(T20) = "100000000000000000000"
+       /\ NDivMod(P64, T20) = <<Zero, P64>> /\ NDivMod(NMul(P64, T20), P64) = <<T20, Zero>>
+       /\ NGcd(NMul(P62, <<21>>), NMul(T20, <<35>>)) = NMul(NPow(Two, 20), <<7>>)
+
+Ip(n) == QInt(FALSE, n)
+In(n) == QInt(TRUE, n)
+Rp(n, d) == MkQ(FALSE, n, d)
+Rn(n, d) == MkQ(TRUE, n, d)
+
+\* integers first (1..NI), then proper rationals
+EX == << QZ, Ip(One), In(One), Ip(Two), In(Two), Ip(<<3>>), In(<<7>>), Ip(<<10>>),
+         Ip(<<9999>>), Ip(<<0, 1>>), In(<<0, 1>>),                                \* limb boundary
+         Ip(NSub(P31, One)), Ip(P31), In(P31), In(NAdd(P31, One)), Ip(P32),       \* 32-bit boundary
+         Ip(R63), Ip(NAdd(R63, One)),                                             \* squares straddle 2^63
+         Ip(P53), Ip(NAdd(P53, One)),                                             \* double-precision boundary
+         Ip(NSub(P62, One)), Ip(P62), In(P62),
+         Ip(NSub(P63, One)), Ip(P63), In(NSub(P63, One)), In(P63), In(NAdd(P63, One)),   \* fixnum boundary
+         Ip(NSub(P64, One)), Ip(P64), Ip(NAdd(P64, One)), In(P64),
+         Ip(T20), In(T20), Ip(T40), Ip(NAdd(T40, One)), In(T40),
+         \* rationals: small, 32-bit ratio boundary, 64-bit components, big / big
+         Rp(One, Two), Rn(One, Two), Rp(Two, <<3>>), Rn(<<7>>, <<3>>),
+         Rp(NSub(P31, One), Two), Rp(P31, <<3>>), Rn(NAdd(P31, One), Two), Rp(<<3>>, P31),
+         Rp(NSub(P63, One), Two), Rn(P63, <<3>>), Rp(<<3>>, P63),
+         Rp(T20, <<3>>), Rn(<<3>>, T20), Rp(NAdd(T40, One), P64), Rn(NAdd(P64, One), T20) >>
+NI == 37
+NX == Len(EX)
+ASSUME \A i \in 1..NX : (EX[i].den = One) <=> (i <= NI)
+
+\* reduced operand set for calls with three and more operands (indexes into EX)
+RX == <<1, 2, 3, 22, 24, 25, 27, 28, 30, 33, 38, 41, 46, 49>>
+\* exponents for expt, shift amounts for arithmetic-shift (TLC integers)
+EXPS   == <<0, 1, 2, 3, 4, 7, 8, 31, 62, 63, 64, 65, -1, -2, -3, -63, -64>>
+SHIFTS == <<0, 1, 2, 31, 32, 61, 62, 63, 64, 65, -1, -2, -62, -63, -64, -65>>
+SX     == <<1, 2, 3, 4, 6, 7, 13, 22, 24, 25, 27, 28, 30, 33>>      \* integers shifted (indexes into EX)
+RADIXES == <<2, 8, 16>>
+QOfInt(k) == IF k >= 0 THEN Ip(NSmall(k)) ELSE In(NSmall(-k))
+
+\* flonum operands: source literal, sign, odd significand, binary exponent.  The check module
+\* validates every row against the host's IEEE doubles (family "ftab").
+FL(lit, neg, m, e) == VF(FFin(neg, m, e), lit)
+FLOS == << VF(FZero(FALSE), "0.0"), VF(FZero(TRUE), "(- 0.0)"),
+           FL("0.5", FALSE, One, -1), FL("-0.5", TRUE, One, -1), FL("1.0", FALSE, One, 0),
+           FL("-1.0", TRUE, One, 0), FL("1.5", FALSE, <<3>>, -1), FL("2.0", FALSE, One, 1),
+           FL("2.5", FALSE, <<5>>, -1), FL("-2.5", TRUE, <<5>>, -1), FL("3.5", FALSE, <<7>>, -1),
+           FL("0.75", FALSE, <<3>>, -2),
+           FL("0.1", FALSE, BE(<<3602, 8797, 189, 6397>>), -55),
+           FL("0.3333333333333333", FALSE, BE(<<6004, 7995, 316, 661>>), -54),
+           FL("4294967296.0", FALSE, One, 32),
+           FL("9007199254740992.0", FALSE, One, 53),
+           FL("9007199254740994.0", FALSE, BE(<<4503, 5996, 2737, 497>>), 1),
+           FL("4611686018427387904.0", FALSE, One, 62),
+           FL("9223372036854775808.0", FALSE, One, 63), FL("-9223372036854775808.0", TRUE, One, 63),
+           FL("18446744073709551616.0", FALSE, One, 64),
+           FL("1e20", FALSE, BE(<<95, 3674, 3164, 625>>), 20), FL("-1e20", TRUE, BE(<<95, 3674, 3164, 625>>), 20),
+           FL("1e22", FALSE, BE(<<2384, 1857, 9101, 5625>>), 22),
+           FL("1.7976931348623157e308", FALSE, BE(<<9007, 1992, 5474, 991>>), 971),
+           FL("5e-324", FALSE, One, -1074),
+           VF(FInf(FALSE), "+inf.0"), VF(FInf(TRUE), "-inf.0"), VF(FNaN, "+nan.0") >>
+NF == Len(FLOS)
+\* every finite row is canonical: the double equal to its value is the row itself
+\* (checked by TLC in the "ftab" state, see Laws)
+LawFtab == \A i \in 1..NF : (FLOS[i].f.c = "fin" /\ FLOS[i].f.m # Zero) => FOfQ(FVal(FLOS[i].f)) = FLOS[i].f
+
+\* exact operands of the mixed family (indexes into EX)
+MXE == <<1, 2, 3, 4, 13, 19, 20, 22, 24, 25, 27, 28, 30, 31, 33, 35, 38, 39, 40, 41, 46, 48, 49, 52>>
+MX  == FLOS \o [i \in 1..Len(MXE) |-> VQ(EX[MXE[i]])]
+NM  == Len(MX)
+
+-----------------------------------------------------------------------------
+(* 6. string->number: the grammar of exact real numerals *)
+
+ALPHA == <<"+", "-", "/", "0", "1", "7">>
+IsDigitCh(c) == c \in {"0", "1", "7"}
+DigitVal(c) == CASE c = "0" -> 0 [] c = "1" -> 1 [] c = "7" -> 7
+RECURSIVE DigitsNat(_, _)           \* value of a digit string, most significant first
+DigitsNat(cs, acc) == IF cs = << >> THEN acc
+                      ELSE DigitsNat(Tail(cs), NAdd(NMulSmall(acc, 10), NSmall(DigitVal(cs[1]))))
+AllDigits(cs) == cs # << >> /\ \A i \in 1..Len(cs) : IsDigitCh(cs[i])
+SlashPos(cs) == IF \E i \in 1..Len(cs) : cs[i] = "/"
+                THEN CHOOSE i \in 1..Len(cs) : cs[i] = "/" /\ \A j \in 1..(i - 1) : cs[j] # "/"
+                ELSE 0
+\* <numeral> ::= [+|-] <digit>+ [ / <digit>+ ]    anything else is not a number: #false.
+\* A zero denominator is left undetermined (R7RS is silent; Steel raises an error).
+ParseExact(cs) ==
+  LET signed == cs # << >> /\ cs[1] \in {"+", "-"}
+      neg    == signed /\ cs[1] = "-"
+      body   == IF signed THEN Tail(cs) ELSE cs
+      sp     == SlashPos(body)
+  IN IF sp = 0
+     THEN (IF AllDigits(body) THEN RQ(QInt(neg, DigitsNat(body, Zero))) ELSE RB(FALSE))
+     ELSE LET nu == SubSeq(body, 1, sp - 1)
+              de == SubSeq(body, sp + 1, Len(body))
+          IN IF AllDigits(nu) /\ AllDigits(de)
+             THEN (IF DigitsNat(de, Zero) = Zero THEN RSkip
+                   ELSE RQ(MkQ(neg, DigitsNat(nu, Zero), DigitsNat(de, Zero))))
+             ELSE RB(FALSE)
+RECURSIVE Concat(_)
+Concat(cs) == IF cs = << >> THEN "" ELSE cs[1] \o Concat(Tail(cs))
+StrLit(s) == "\"" \o s \o "\""
+
+\* numerals derived from an exact value: canonical, explicit +, leading zeros, unreduced, radix 16 / 2
+S2NVARIANTS == <<"canon", "plus", "zeros", "unreduced", "hex", "bin">>
+S2NText(q, v) ==
+  LET sg == IF q.neg THEN "-" ELSE "" IN
+  CASE v = "canon" -> QStr(q)
+    [] v = "plus"  -> (IF q.neg THEN "-" ELSE "+") \o QStr(QAbs(q))
+    [] v = "zeros" -> sg \o "000" \o NStr(q.num) \o (IF q.den = One THEN "" ELSE "/00" \o NStr(q.den))
+    [] v = "unreduced" -> sg \o NStr(NMulSmall(q.num, 6)) \o "/" \o NStr(NMulSmall(q.den, 6))
+    [] v = "hex"   -> QStrRadix(q, 16)
+    [] v = "bin"   -> QStrRadix(q, 2)
+S2NArgs(q, v) == <<StrLit(S2NText(q, v))>> \o (CASE v = "hex" -> <<"16">> [] v = "bin" -> <<"2">> [] OTHER -> << >>)
+
+-----------------------------------------------------------------------------
+(* 7. Call shapes: the same operation through every code path that implements it *)
+(*                                                                         *)
+(*  fold     all operands literal: the compile-time constant folder        *)
+(*  opq      every operand read through (opaque _): the interpreter's      *)
+(*           arithmetic opcode (or the primitive, for non-inlined names)   *)
+(*  litR / litL   one literal operand, the others opaque                   *)
+(*  apply    the primitive as a first-class procedure                      *)
+(*  let      operands in local variables at top level                      *)
+(*  fn       body of a defined function, tail position (native code when   *)
+(*           the JIT is on), operands are parameters                       *)
+(*  fnarg    inside a function, argument position                          *)
+(*  fnlitR / fnlitL  inside a function with one literal operand (the JIT   *)
+(*           specialises on the inferred type of a literal operand)        *)
+(*  fnloop   inside a self-tail-calling loop, result carried in a parameter*)
+(*  if / fnif / fniflitR   result consumed as a branch condition           *)
+
+RECURSIVE JoinSp(_)
+JoinSp(xs) == IF xs = << >> THEN "" ELSE " " \o xs[1] \o JoinSp(Tail(xs))
+Call(o, args) == "(" \o o \o JoinSp(args) \o ")"
+Opq(l) == "(opaque " \o l \o ")"
+Front(s) == SubSeq(s, 1, Len(s) - 1)
+TF(e) == "(if " \o e \o " (quote T) (quote F))"
+RECURSIVE Bindings(_, _, _)
+Bindings(xs, es, i) == IF i > Len(xs) THEN ""
+                       ELSE "(" \o xs[i] \o " " \o es[i] \o ")" \o (IF i < Len(xs) THEN " " ELSE "")
+                            \o Bindings(xs, es, i + 1)
+
+\* N7: a flonum result that the model cannot print is observed through numeric equality
+\* with its exact decimal expansion
+NeedsEq(r) == r.t = "fl" /\ ~FShort(r.f)
+Obs(e, r) == IF NeedsEq(r)
+             THEN "((lambda (c10r) (list (inexact? c10r) (= c10r " \o FExactLit(r.f) \o "))) " \o e \o ")"
+             ELSE e
+Expected(r) == IF r.t = "err" THEN "" ELSE IF NeedsEq(r) THEN "(#true #true)" ELSE RStr(r)
+
+Shapes(o, ls, r, full) ==
+  LET n   == Len(ls)
+      xs  == [i \in 1..n |-> "x" \o ToString(i)]
+      oq  == [i \in 1..n |-> Opq(ls[i])]
+      txt == Expected(r)
+      tf  == IF r.t = "bool" THEN (IF r.b THEN "T" ELSE "F") ELSE ""
+      F   == "c10f@@"
+      Em(e) == "(emit " \o Obs(e, r) \o ")"
+      Def(ps, body) == "(define (" \o F \o JoinSp(ps) \o ") " \o body \o ")"
+      T(sh, def, src, t) == [sh |-> sh, def |-> def, src |-> src, emit |-> t]
+      base == << T("fold", "", Em(Call(o, ls)), txt),
+                 T("opq", "", Em(Call(o, oq)), txt),
+                 T("apply", "", Em("(apply " \o o \o " (list" \o JoinSp(oq) \o "))"), txt),
+                 T("fn", Def(xs, Call(o, xs)), Em(Call(F, oq)), txt) >>
+      litr == IF n >= 2
+              THEN << T("fnlitR", Def(Front(xs), Call(o, Front(xs) \o <<ls[n]>>)), Em(Call(F, Front(oq))), txt) >>
+              ELSE << >>
+      more == << T("let", "", Em("(let (" \o Bindings(xs, oq, 1) \o ") " \o Call(o, xs) \o ")"), txt),
+                 T("fnarg", Def(xs, "(emit " \o Obs(Call(o, xs), r) \o ") (quote done)"), Call(F, oq), txt),
+                 T("fnloop", Def(<<"k">> \o xs \o <<"acc">>,
+                                 "(if (<= k 0) acc " \o Call(F, <<"(- k 1)">> \o xs \o <<Call(o, xs)>>) \o ")"),
+                   Em(Call(F, <<"2">> \o oq \o <<"#f">>)), txt) >>
+      lits == IF n >= 2
+              THEN << T("litR", "", Em(Call(o, Front(oq) \o <<ls[n]>>)), txt),
+                      T("litL", "", Em(Call(o, <<ls[1]>> \o Tail(oq))), txt),
+                      T("fnlitL", Def(Tail(xs), Call(o, <<ls[1]>> \o Tail(xs))), Em(Call(F, Tail(oq))), txt) >>
+              ELSE << >>
+      cond == IF r.t # "bool" THEN << >>
+              ELSE << T("if", "", "(emit " \o TF(Call(o, oq)) \o ")", tf),
+                      T("fnif", Def(xs, TF(Call(o, xs))), "(emit " \o Call(F, oq) \o ")", tf) >>
+                   \o (IF n >= 2
+                       THEN << T("fniflitR", Def(Front(xs), TF(Call(o, Front(xs) \o <<ls[n]>>))),
+                                 "(emit " \o Call(F, Front(oq)) \o ")", tf) >>
+                       ELSE << >>)
+  IN IF full THEN base \o litr \o more \o lits \o cond ELSE base \o litr
+
+-----------------------------------------------------------------------------
+(* 8. The generator: families, operand choice, expected result *)
+
+CORE  == <<"+", "-", "*", "=", "<", "<=", ">", ">=">>
+DIVS  == <<"/", "max", "min">>
+NARY  == <<"+", "-", "*", "/", "<", "<=", ">", ">=">>
+NARY4 == <<"+", "-", "*">>
+MIXOPS == <<"+", "-", "*", "/", "=", "<", "<=", ">", ">=">>
+
+FAMS == {"core", "div", "int", "un", "nul", "nary", "nary4", "nary5", "expt", "shift",
+         "n2s", "s2n", "s2ng", "mix", "mixun", "ftab"}
+
+Ops(f) == CASE f = "core"  -> CORE
+            [] f = "div"   -> DIVS
+            [] f = "int"   -> INTOPS
+            [] f = "un"    -> UNOPS
+            [] f = "nul"   -> <<"+", "*">>
+            [] f = "nary"  -> NARY
+            [] f \in {"nary4", "nary5"} -> NARY4
+            [] f = "expt"  -> <<"expt">>
+            [] f = "shift" -> <<"arithmetic-shift">>
+            [] f = "n2s"   -> <<"number->string">>
+            [] f \in {"s2n", "s2ng"} -> <<"string->number">>
+            [] f = "mix"   -> MIXOPS
+            [] f = "mixun" -> FUNOPS
+            [] f = "ftab"  -> <<"table">>
+
+\* number of choices at each operand position; position 1 is chosen by Init
+Choices(f) == CASE f \in {"core", "div"} -> <<NX, NX>>
+                [] f = "int"   -> <<NI, NI>>
+                [] f = "un"    -> <<NX>>
+                [] f \in {"nul", "ftab"} -> <<1>>
+                [] f \in {"nary", "nary4", "nary5"} -> <<Len(RX), Len(RX), Len(RX)>>
+                [] f = "expt"  -> <<NX, Len(EXPS)>>
+                [] f = "shift" -> <<Len(SX), Len(SHIFTS)>>
+                [] f = "n2s"   -> <<NX, Len(RADIXES)>>
+                [] f = "s2n"   -> <<NX, Len(S2NVARIANTS)>>
+                [] f = "s2ng"  -> <<Len(ALPHA), Len(ALPHA) + 1, Len(ALPHA) + 1, Len(ALPHA) + 1, Len(ALPHA) + 1>>
+                [] f = "mix"   -> <<NM, NM>>
+                [] f = "mixun" -> <<NF>>
+
+Modulus(f) == CASE f = "core" -> M_CORE
+                [] f = "div" -> M_DIV
+                [] f = "int" -> M_INT
+                [] f \in {"nul", "ftab"} -> 1
+                [] f \in {"un", "mixun"} -> M_UN
+                [] f \in {"nary", "nary4", "nary5"} -> M_NARY
+                [] f \in {"expt", "shift"} -> M_EXPT
+                [] f \in {"n2s", "s2n", "s2ng"} -> M_STR
+                [] f = "mix" -> M_MIX
+
+\* seeded slice of a family: every case has a hash; it is kept when hash = 0 modulo the family's modulus
+RECURSIVE IxHash(_, _, _)
+IxHash(s, i, acc) == IF i > Len(s) THEN acc
+                     ELSE IxHash(s, i + 1, (acc * 131 + s[i] * 7919 + 17) % 1000003)
+Selected(f, o, s) == Modulus(f) = 1
+                     \/ (IxHash(<<o>> \o s, 1, (SEED % 9973) * 101 + 7) % Modulus(f)) = 0
+
+\* the operand values of a finished choice
+Operands(f, s) ==
+  CASE f \in {"core", "div", "int"} -> <<VQ(EX[s[1]]), VQ(EX[s[2]])>>
+    [] f = "un"    -> <<VQ(EX[s[1]])>>
+    [] f \in {"nul", "ftab", "s2ng"} -> << >>
+    [] f = "nary"  -> <<VQ(EX[RX[s[1]]]), VQ(EX[RX[s[2]]]), VQ(EX[RX[s[3]]])>>
+    [] f = "nary4" -> <<VQ(EX[RX[s[1]]]), VQ(EX[RX[s[2]]]), VQ(EX[RX[s[3]]]), VQ(EX[RX[s[1]]])>>
+    [] f = "nary5" -> <<VQ(EX[RX[s[1]]]), VQ(EX[RX[s[2]]]), VQ(EX[RX[s[3]]]), VQ(EX[RX[s[2]]]), VQ(EX[RX[s[1]]])>>
+    [] f = "expt"  -> <<VQ(EX[s[1]]), VQ(QOfInt(EXPS[s[2]]))>>
+    [] f = "shift" -> <<VQ(EX[SX[s[1]]]), VQ(QOfInt(SHIFTS[s[2]]))>>
+    [] f = "n2s"   -> <<VQ(EX[s[1]]), VQ(QOfInt(RADIXES[s[2]]))>>
+    [] f = "s2n"   -> <<VQ(EX[s[1]])>>
+    [] f = "mix"   -> <<MX[s[1]], MX[s[2]]>>
+    [] f = "mixun" -> <<FLOS[s[1]]>>
+
+\* s2ng: the choice at position 1 is a character, at positions 2.. it is 1 = "the string has ended"
+\* or 1 + a character; once ended it stays ended.  All strings of 1..5 characters over ALPHA.
+S2ngEnded(s, i) == i > 1 /\ s[i] = 1
+S2ngValid(s) == \A i \in 2..(Len(s) - 1) : S2ngEnded(s, i) => S2ngEnded(s, i + 1)
+S2ngLen(s)   == Len(SelectSeq([i \in 1..Len(s) |-> S2ngEnded(s, i)], LAMBDA b : ~b))
+S2ngChars(s) == [i \in 1..S2ngLen(s) |-> IF i = 1 THEN ALPHA[s[1]] ELSE ALPHA[s[i] - 1]]
+
+\* argument source texts
+Args(f, s) ==
+  CASE f = "s2n"  -> S2NArgs(EX[s[1]], S2NVARIANTS[s[2]])
+    [] f = "s2ng" -> <<StrLit(Concat(S2ngChars(s)))>>
+    [] OTHER      -> LET xs == Operands(f, s) IN [i \in 1..Len(xs) |-> Lit(xs[i])]
+
+\* the expected result
+Eval(f, o, s) ==
+  LET xs == Operands(f, s) IN
+  CASE f = "core"  -> IF o \in ARITH THEN ArithN(o, xs) ELSE CmpN(o, xs)
+    [] f = "div"   -> IF o = "/" THEN ArithN(o, xs)
+                      ELSE IF o = "max" THEN RQ(IF QCmp(xs[1].q, xs[2].q) >= 0 THEN xs[1].q ELSE xs[2].q)
+                      ELSE RQ(IF QCmp(xs[1].q, xs[2].q) <= 0 THEN xs[1].q ELSE xs[2].q)
+    [] f = "int"   -> IntOp2(o, xs[1].q, xs[2].q)
+    [] f = "un"    -> UnEx(o, xs[1].q)
+    [] f = "nul"   -> ArithN(o, xs)
+    [] f \in {"nary", "nary4", "nary5"} -> IF o \in ARITH THEN ArithN(o, xs) ELSE CmpN(o, xs)
+    [] f = "expt"  -> IF QIsZero(xs[1].q) /\ EXPS[s[2]] < 0 THEN RErr ELSE RQ(QExpt(xs[1].q, EXPS[s[2]]))
+    [] f = "shift" -> RQ(QShift(xs[1].q, SHIFTS[s[2]]))
+    [] f = "n2s"   -> RS(QStrRadix(xs[1].q, RADIXES[s[2]]))
+    [] f = "s2n"   -> RQ(xs[1].q)
+    [] f = "s2ng"  -> ParseExact(S2ngChars(s))
+    [] f = "mix"   -> IF o \in ARITH THEN ArithN(o, xs) ELSE CmpN(o, xs)
+    [] f = "mixun" -> UnFl(o, xs[1].f)
+
+\* which families get the full shape set
+FullShapes(f, o) == f \in {"core", "div", "nary", "mix", "nul"} \/ (f \in {"un", "mixun"} /\ o \in {"+", "-", "*", "/", "<"})
+
+Init == \E f \in {g \in FAMS : FAMILY \in {"all", g} \/ g = "ftab"} : \E o \in 1..Len(Ops(f)) : \E i \in 1..Choices(f)[1] :
+          fam = f /\ oi = o /\ op = Ops(f)[o] /\ ix = <<i>> /\ done = FALSE
+
+RECURSIVE Tuples(_, _)       \* all completions of a partial index tuple
+Tuples(f, s) == IF Len(s) = Len(Choices(f)) THEN {s}
+                ELSE UNION {Tuples(f, Append(s, j)) : j \in 1..Choices(f)[Len(s) + 1]}
+
+Admissible(f, s) ==
+  CASE f = "mix"  -> ~(IsEx(MX[s[1]]) /\ IsEx(MX[s[2]]))            \* at least one flonum
+    [] f = "expt" -> LET k == EXPS[s[2]]                             \* keep the powers below ~70 limbs
+                         b == EX[s[1]]
+                     IN (Len(b.num) + Len(b.den)) * (IF k < 0 THEN -k ELSE k) <= 70
+    [] f = "s2n"  -> ~(S2NVARIANTS[s[2]] = "plus" /\ EX[s[1]].neg)   \* same text as "canon"
+    [] f = "s2ng" -> S2ngValid(s)
+    [] OTHER      -> TRUE
+
+Pick == /\ ~done
+        /\ \E s \in Tuples(fam, ix) : /\ Admissible(fam, s)
+                                       /\ Selected(fam, oi, s)
+                                       /\ ix' = s
+        /\ done' = TRUE
+        /\ UNCHANGED <<fam, op, oi>>
+
+Spec == Init /\ [][Pick]_vars
+
+-----------------------------------------------------------------------------
+(* 9. What TLC checks and prints *)
+
+FtabRows == [i \in 1..NF |-> [lit |-> FLOS[i].lit, c |-> FLOS[i].f.c, neg |-> FLOS[i].f.neg,
+                              m |-> NStr(FLOS[i].f.m), e |-> FLOS[i].f.e,
+                              exact |-> IF FLOS[i].f.c = "fin" THEN FExactLit(FLOS[i].f) ELSE "",
+                              printed |-> IF FShort(FLOS[i].f) THEN FStr(FLOS[i].f) ELSE ""]]
+
+CaseOf ==
+  IF fam = "ftab" THEN [fam |-> fam, rows |-> FtabRows]
+  ELSE LET r  == Eval(fam, op, ix)
+           xs == Operands(fam, ix)
+       IN [fam |-> fam, op |-> op, args |-> Args(fam, ix),
+           cls |-> IF r.t = "err" THEN "err" ELSE "ok",
+           exp |-> Expected(r),
+           rep |-> [i \in 1..Len(xs) |-> VRep(xs[i])] \o <<RRep(r)>>,
+           tests |-> Shapes(op, Args(fam, ix), r, FullShapes(fam, op))]
+
+Emit == (done /\ (fam = "ftab" \/ Eval(fam, op, ix).t # "skip")) => PrintT(<<"REPLAY", ToJson(CaseOf)>>)
+
+TypeOK == /\ fam \in FAMS /\ oi \in 1..Len(Ops(fam)) /\ op = Ops(fam)[oi]
+          /\ done \in BOOLEAN
+          /\ Len(ix) = (IF done THEN Len(Choices(fam)) ELSE 1)
+          /\ \A i \in 1..Len(ix) : ix[i] \in 1..Choices(fam)[i]
+
+\* ---- the algebra checks itself: identities that characterise each operation ----
+Canon(q) == /\ q.den # Zero /\ Trim(q.num) = q.num /\ Trim(q.den) = q.den
+            /\ (q.num = Zero => (~q.neg /\ q.den = One))
+            /\ (q.num # Zero => NGcd(q.num, q.den) = One)
+RCanon(r) == CASE r.t = "ex" -> Canon(r.q)
+               [] r.t = "list" -> Canon(r.x) /\ Canon(r.y)
+               [] r.t = "fl" -> (r.f.c = "fin" /\ r.f.m # Zero) => (NIsOdd(r.f.m) /\ NLt(r.f.m, P53))
+               [] OTHER -> TRUE
+QLt(x, y) == QCmp(x, y) < 0
+QLe(x, y) == QCmp(x, y) <= 0
+SameSignOrZero(r, x) == QIsZero(r) \/ r.neg = x.neg
+
+LawBin(o, a, b) ==
+  CASE o = "+" -> /\ QSub(QAdd(a, b), b) = a /\ QAdd(a, b) = QAdd(b, a)
+                  /\ QCmp(QAdd(a, b), a) = QSign(b)
+    [] o = "-" -> /\ QAdd(QSub(a, b), b) = a /\ QSign(QSub(a, b)) = QCmp(a, b)
+                  /\ QSub(a, b) = QNeg(QSub(b, a))
+    [] o = "*" -> /\ QMul(a, b) = QMul(b, a) /\ QSign(QMul(a, b)) = QSign(a) * QSign(b)
+                  /\ (~QIsZero(b) => QDiv(QMul(a, b), b) = a)
+                  /\ QMul(a, QAdd(b, QOne)) = QAdd(QMul(a, b), a)                 \* distributivity
+    [] o = "/" -> ~QIsZero(b) => (QMul(QDiv(a, b), b) = a /\ QSign(QDiv(a, b)) = QSign(a) * QSign(b))
+    [] o \in CMPS \cup {"max", "min"} ->
+                  /\ QCmp(a, b) = -QCmp(b, a) /\ ((QCmp(a, b) = 0) <=> (a = b))
+                  /\ QCmp(a, b) = QSign(QSub(a, b))
+    [] OTHER -> TRUE
+
+LawInt(a, b) ==
+  /\ LET g == QGcd(a, b) IN
+       /\ ~g.neg
+       /\ (QIsZero(a) /\ QIsZero(b)) => QIsZero(g)
+       /\ ~(QIsZero(a) /\ QIsZero(b)) =>
+            /\ NMod(a.num, g.num) = Zero /\ NMod(b.num, g.num) = Zero
+            /\ NGcd(NDiv(a.num, g.num), NDiv(b.num, g.num)) = One
+       /\ QMul(g, QLcm(a, b)) = QAbs(QMul(a, b))
+  /\ ~QIsZero(b) =>
+       LET t == TruncQR(a, b)
+           f == FloorQR(a, b)
+           u == EuclidQR(a, b)
+           ab == QAbs(b)
+       IN /\ QAdd(QMul(t[1], b), t[2]) = a /\ QLt(QAbs(t[2]), ab) /\ SameSignOrZero(t[2], a)
+          /\ QAdd(QMul(f[1], b), f[2]) = a /\ QLt(QAbs(f[2]), ab) /\ SameSignOrZero(f[2], b)
+          /\ QAdd(QMul(u[1], b), u[2]) = a /\ QLt(u[2], ab) /\ ~u[2].neg
+          /\ f[1] = QFloor(QDiv(a, b)) /\ t[1] = QTrunc(QDiv(a, b))
+          /\ QIsInt(t[1]) /\ QIsInt(t[2]) /\ QIsInt(f[1]) /\ QIsInt(f[2])
+
+LawUn(x) ==
+  /\ LET f == QFloor(x) c == QCeil(x) t == QTrunc(x) r == QRound(x) d == QAbs(QSub(x, QRound(x))) IN
+       /\ QIsInt(f) /\ QLe(f, x) /\ QLt(x, QAdd(f, QOne))
+       /\ QIsInt(c) /\ QLe(x, c) /\ QLt(QSub(c, QOne), x)
+       /\ QIsInt(t) /\ QLe(QAbs(t), QAbs(x)) /\ QLt(QAbs(x), QAdd(QAbs(t), QOne)) /\ SameSignOrZero(t, x)
+       /\ QIsInt(r) /\ QLe(d, QHalf) /\ (d = QHalf => ~NIsOdd(r.num))
+  /\ QDiv(QInt(x.neg, x.num), QInt(FALSE, x.den)) = x
+  /\ QMul(QAbs(x), QAbs(x)) = QMul(x, x) /\ ~QAbs(x).neg
+  /\ (QIsInt(x) /\ ~x.neg) =>
+       LET s == QISqrt(x) IN /\ QAdd(QMul(s[1], s[1]), s[2]) = x /\ ~s[2].neg
+                              /\ QLt(x, QMul(QAdd(s[1], QOne), QAdd(s[1], QOne)))
+  /\ ~QIsZero(x) => QMul(x, QInv(x)) = QOne
+
+LawExpt(x, k) == IF k >= 0 THEN QExpt(x, k + 1) = QMul(QExpt(x, k), x)
+                 ELSE QIsZero(x) \/ QMul(QExpt(x, k), QExpt(x, -k)) = QOne
+LawShift(n, k) == IF k >= 0 THEN QShift(QShift(n, k), -k) = n
+                  ELSE LET r == QShift(n, k) p == QInt(FALSE, NPow(Two, -k)) IN
+                       /\ QIsInt(r) /\ QLe(QMul(r, p), n) /\ QLt(n, QMul(QAdd(r, QOne), p))
+Moderate(f) == f.c = "fin" /\ f.e > -200 /\ f.e < 200
+LawFloArith(a, b) ==
+  (Moderate(a) /\ Moderate(b) /\ a.m # Zero /\ b.m # Zero) =>
+     LET chk(r, q) == r.c = "undet" \/ (IF QIsZero(q) THEN r.m = Zero ELSE FVal(r) = q /\ FOfQ(q) = r)
+     IN /\ chk(FAdd(a, b), QAdd(FVal(a), FVal(b))) /\ chk(FSub(a, b), QSub(FVal(a), FVal(b)))
+        /\ chk(FMul(a, b), QMul(FVal(a), FVal(b))) /\ chk(FDiv(a, b), QDiv(FVal(a), FVal(b)))
+        /\ (FOfQ(QMul(FVal(a), FVal(b))).c = "undet" <=> FMul(a, b).c = "undet")
+        /\ (FOfQ(QDiv(FVal(a), FVal(b))).c = "undet" <=> FDiv(a, b).c = "undet")
+LawMix(v, w) == /\ (NumCmp(v, w) = 2 <=> NumCmp(w, v) = 2)
+                /\ (ToFlo(v).c \in {"fin"} /\ ToFlo(w).c \in {"fin"}) => LawFloArith(ToFlo(v), ToFlo(w))
+                /\ NumCmp(v, w) # 2 => NumCmp(w, v) = -NumCmp(v, w)
+                /\ NumCmp(v, v) \in {0, 2}
+
+Laws ==
+  done =>
+    LET xs == Operands(fam, ix) IN
+    /\ (fam # "ftab" => RCanon(Eval(fam, op, ix)))
+    /\ CASE fam \in {"core", "div"} -> LawBin(op, xs[1].q, xs[2].q)
+         [] fam = "int"   -> (oi = 1 => LawInt(xs[1].q, xs[2].q))    \* independent of the operator:
+         [] fam = "un"    -> (oi = 1 => LawUn(xs[1].q))               \* once per operand tuple
+         [] fam = "expt"  -> LawExpt(xs[1].q, EXPS[ix[2]])
+         [] fam = "shift" -> LawShift(xs[1].q, SHIFTS[ix[2]])
+         [] fam = "mix"   -> (oi = 1 => LawMix(xs[1], xs[2]))
+         [] fam = "ftab"  -> LawFtab
+         [] OTHER -> TRUE
 
 =============================================================================
